@@ -354,7 +354,10 @@ func asList(a any) []any {
 }
 
 // Fill populates m (through the reflection w gives) with the abstract value j.
-func Fill(m protoreflect.Message, j J, w Wrap) {
+func Fill(m protoreflect.Message, j J, w Wrap) { FillOrder(m, j, w, false) }
+
+// FillOrder is Fill with a choice of insertion order for fields and map entries.
+func FillOrder(m protoreflect.Message, j J, w Wrap, reverse bool) {
 	fs := asJ(j["f"])
 	md := m.Descriptor()
 	keys := make([]string, 0, len(fs))
@@ -362,6 +365,11 @@ func Fill(m protoreflect.Message, j J, w Wrap) {
 		keys = append(keys, k)
 	}
 	sort.Strings(keys)
+	if reverse {
+		for i, j := 0, len(keys)-1; i < j; i, j = i+1, j-1 {
+			keys[i], keys[j] = keys[j], keys[i]
+		}
+	}
 	for _, k := range keys {
 		x := fs[k]
 		n, _ := strconv.Atoi(k)
@@ -372,12 +380,19 @@ func Fill(m protoreflect.Message, j J, w Wrap) {
 		switch {
 		case fd.IsMap():
 			mp := m.Mutable(fd).Map()
-			for _, p := range asList(x) {
+			ents := asList(x)
+			if reverse {
+				ents = append([]any(nil), ents...)
+				for i, j := 0, len(ents)-1; i < j; i, j = i+1, j-1 {
+					ents[i], ents[j] = ents[j], ents[i]
+				}
+			}
+			for _, p := range ents {
 				pj := asJ(p)
 				key := ScalarValue(fd.MapKey().Kind(), pj["k"]).MapKey()
 				if fd.MapValue().Message() != nil {
 					sub := mp.NewValue()
-					Fill(w(sub.Message()), asJ(pj["v"]), w)
+					FillOrder(w(sub.Message()), asJ(pj["v"]), w, reverse)
 					mp.Set(key, sub)
 				} else {
 					mp.Set(key, ScalarValue(fd.MapValue().Kind(), pj["v"]))
@@ -388,7 +403,7 @@ func Fill(m protoreflect.Message, j J, w Wrap) {
 			for _, e := range asList(x) {
 				if fd.Message() != nil {
 					sub := l.NewElement()
-					Fill(w(sub.Message()), asJ(e), w)
+					FillOrder(w(sub.Message()), asJ(e), w, reverse)
 					l.Append(sub)
 				} else {
 					l.Append(ScalarValue(fd.Kind(), e))
@@ -396,7 +411,7 @@ func Fill(m protoreflect.Message, j J, w Wrap) {
 			}
 		case fd.Message() != nil:
 			sub := m.NewField(fd)
-			Fill(w(sub.Message()), asJ(x), w)
+			FillOrder(w(sub.Message()), asJ(x), w, reverse)
 			m.Set(fd, sub)
 		default:
 			m.Set(fd, ScalarValue(fd.Kind(), x))
